@@ -23,8 +23,33 @@ def _job(job):
 
     kind = job.get("kind", "run")
     if kind == "run":
+        sampler = rec = None
+        if job.get("oracle") == "late_crossing":
+            # synthetic history: the pool ESS falls below the target only in the last 1e-4 before beta = 1 (the real ESS is
+            # reported everywhere except at exactly beta = 1.0), so the ESS-limited temperature lands inside (1 - 1e-4, 1)
+            import numpy as np
+            from . import psrun as ps
+
+            c = dict(drivers.DEFAULTS)
+            c.update(job["conf"])
+            rec = ps.Recorder(c["n_dim"], have_blobs=(c["evaluation"] == "blobs"), label=job.get("label", ""))
+            np.random.seed(job["seed"])
+            sampler, _ = drivers.build_sampler(job["conf"], rec)
+            rw = sampler._core.reweighter
+            orig = rw._compute_metric_and_weights
+
+            def oracle(beta):
+                w, ess, metric = orig(beta)
+                if beta == 1.0:
+                    ess = 0.0
+                    if rw.volume_variation is None:
+                        metric = 0.0
+                return w, ess, metric
+
+            rw._compute_metric_and_weights = oracle
+            rec.attach(sampler)
         rec, s, tr = drivers.record_run(job["conf"], n_total=job.get("n_total", 32), seed=job["seed"], label=job.get("label", ""),
-                                        posterior_flags=job.get("flags"), manual_iters=job.get("manual_iters", 0))
+                                        posterior_flags=job.get("flags"), manual_iters=job.get("manual_iters", 0), rec=rec, sampler=sampler)
         return [tr] if tr is not None else []
     raise ValueError(kind)
 
@@ -143,6 +168,8 @@ def attribute(ck, pid, traces, fails, extra_props=()):
                 props.add("C11")  # with a zero-likelihood region the recorded beta=0 evidences must enter the mixture formula
             if cl == "NoRaise" and ev.get("site", "").startswith(("student.", "modes.", "cluster.", "train.", "resample.")):
                 props.add("C14")  # mutation could not run: no valid proposal modes / labels for this particle history
+            if cl == "PO_Rows":
+                props.add("C07")  # posterior trimming / resampling moves whole records
             if cl == "LD_Rng":
                 props.add("C08")  # the random stream is part of what a checkpoint restores (the resumed run continues from that point)
             if cl == "MB_SameSlots":
